@@ -41,10 +41,12 @@ void BetaDiscreteDistribution::fireParameterChanged(const ParameterList& paramet
   alpha_ = getParameterValue("alpha");
   beta_ = getParameterValue("beta");
 
-  if (alpha_ <= 1 && intMinMax_->getLowerBound() == 0)
+  // (the ends are moved only as long as the domain stays ordered: restrictToConstraint may have
+  // brought the other end closer than the precision)
+  if (alpha_ <= 1 && intMinMax_->getLowerBound() == 0 && precision() <= intMinMax_->getUpperBound())
     intMinMax_->setLowerBound(precision(), false);
 
-  if (beta_ <= 1 && intMinMax_->getUpperBound() == 1)
+  if (beta_ <= 1 && intMinMax_->getUpperBound() == 1 && intMinMax_->getLowerBound() <= 1 - precision())
     intMinMax_->setUpperBound(1 - precision(), false);
 
   diffln_ = exp(RandomTools::lnBeta(alpha_ + 1, beta_) - RandomTools::lnBeta(alpha_, beta_));
